@@ -71,15 +71,12 @@ def runLoop (X : Ext) (ρ : Oracle) (timeout : Nat → Bool) : Nat → Nat → S
   | fuel + 1, k, s =>
     if (k : Int) > s.cfg.evalPushLimit.toInt then (.stepLimit, k, s)
     else if timeout k then (.timeLimit, k, s)
-    else
-      let r := step X ρ s
-      if r.1 then (.noErrors, k, s)
-      else if r.2.size > s.size + s.cfg.growthCap then (.growthCap, k + 1, r.2)
-      else runLoop X ρ timeout fuel (k + 1) r.2
+    else if (step X ρ s).1 then (.noErrors, k, s)
+    else if (step X ρ s).2.size > s.size + s.cfg.growthCap then (.growthCap, k + 1, (step X ρ s).2)
+    else runLoop X ρ timeout fuel (k + 1) (step X ρ s).2
 
 /-- `PushInterpreter::run` -/
 def run (X : Ext) (ρ : Oracle) (timeout : Nat → Bool) (s : State) : Outcome × Nat × State :=
-  let s0 := copyToCode s
-  runLoop X ρ timeout ((s0.cfg.evalPushLimit.toInt + 2).toNat + 1) 0 s0
+  runLoop X ρ timeout ((s.cfg.evalPushLimit.toInt + 2).toNat + 1) 0 (copyToCode s)
 
 end Pushr
